@@ -250,12 +250,35 @@ def make_e2e_harness(cfg, tw):
         eng.assume(z3.And([z3.And(t > rv(0.001), t <= 1000) for t in off]))
         X = symnp.SArr.from_list([[float(i)] for i in range(n)])
         Y = symnp.SArr.from_list(list(labels), dtype="i")
+        scored = []
         if model == "knn":
             opf = knn_mod.KNNSupervisedOPF(max_k=max_k)
-            opf.distance_fn = models.table_metric(D)
-            Xv = symnp.SArr.from_list([[float(n + i)] for i in range(nv)])
             Yv = symnp.SArr.from_list(list(vlabels), dtype="i")
-            opf.fit(X, Y, Xv, Yv)
+            if cfg.get("branch") == "pre":
+                # pre-computed table over the training rows; the validation samples are rows cfg["ival"] of it
+                opf.pre_computed_distance = True
+                opf.pre_distances = symnp.SArr.from_list([r[:n] for r in D[:n]])
+                X = symnp.zeros((n, 1))
+                I = symnp.SArr.from_list(list(range(n)), dtype="i")
+                Xv = symnp.zeros((nv, 1))
+                Iv = symnp.SArr.from_list(list(cfg["ival"]), dtype="i")
+            else:
+                opf.distance_fn = models.table_metric(D)
+                Xv = symnp.SArr.from_list([[float(n + i)] for i in range(nv)])
+                I = Iv = None
+            # what each candidate k is scored on, judged independently of the arguments the code hands to the
+            # criterion: the candidate model's own predictions for the validation samples (with their identifiers)
+            real_acc = knn_mod.g.opf_accuracy
+
+            def acc_spy(a1, a2):
+                truth = knn_mod.KNNSupervisedOPF.predict(opf, Xv, Iv)
+                scored.append(dict(k=opf.subgraph.best_k, labels=a1, preds=a2, truth=truth, acc=real_acc(Yv, truth)))
+                return real_acc(a1, a2)
+            knn_mod.g.opf_accuracy = acc_spy
+            try:
+                opf.fit(X, Y, Xv, Yv, I, Iv)
+            finally:
+                knn_mod.g.opf_accuracy = real_acc
         else:
             opf = uns_mod.UnsupervisedOPF(min_k=1, max_k=max_k)
             opf.distance_fn = models.table_metric(D)
@@ -264,7 +287,7 @@ def make_e2e_harness(cfg, tw):
                 opf.propagate_labels()
         g = opf.subgraph
         return dict(opf=opf, g=g, D=D, dens=[nd.density for nd in g.nodes], labels=list(labels),
-                    adjs=[[int(a) for a in nd.adjacency] for nd in g.nodes])
+                    adjs=[[int(a) for a in nd.adjacency] for nd in g.nodes], scored=scored)
     return harness
 
 
@@ -277,6 +300,30 @@ def e2e_post(eng, cfg, out, info):
     g = out["g"]
     c2 = dict(cfg, n=cfg["n"], k=g.best_k, force=(cfg["model"] == "knn"), e2e=True)
     cluster_post(eng, c2, out, info)
+    scored = out.get("scored") or []
+    if cfg["model"] == "knn":
+        vl = list(cfg.get("vlabels", []))
+        eng.check("every-candidate-k-is-scored-once", [sc["k"] for sc in scored] == list(range(1, cfg["max_k"] + 1)), info)
+        for sc in scored:
+            la = sc["labels"].flat() if isinstance(sc["labels"], symnp.SArr) else list(sc["labels"])
+            pa = sc["preds"].flat() if isinstance(sc["preds"], symnp.SArr) else list(sc["preds"])
+            ta = sc["truth"].flat() if isinstance(sc["truth"], symnp.SArr) else list(sc["truth"])
+            same_l = len(la) == len(vl) and all(core.sym_eq(a, b) is True or (not core.is_sym(a) and a == b) for a, b in zip(la, vl))
+            eng.check("scored-against-the-validation-labels[k%d]" % sc["k"], bool(same_l), info)
+            if len(pa) != len(ta):
+                eng.check("scored-predictions-are-the-candidate's-validation-predictions[k%d]" % sc["k"], False, info)
+                continue
+            eqs = [core.sym_eq(a, b) for a, b in zip(pa, ta)]
+            eng.check("scored-predictions-are-the-candidate's-validation-predictions[k%d]" % sc["k"],
+                      z3.And([core.to_bool(x) if not isinstance(x, bool) else z3.BoolVal(x) for x in eqs] or [z3.BoolVal(True)]), info)
+        if scored and [sc["k"] for sc in scored] == list(range(1, cfg["max_k"] + 1)) and isinstance(g.best_k, int):
+            accs = [to_real(sc["acc"]) for sc in scored]
+            b = g.best_k - 1
+            if 0 <= b < len(accs):
+                eng.check("best-k-is-the-least-argmax-of-validation-accuracy",
+                          z3.And([accs[b] >= a for a in accs] + [accs[j] < accs[b] for j in range(b)]), info)
+            else:
+                eng.check("best-k-is-the-least-argmax-of-validation-accuracy", False, info)
 
 
 def cluster_post(eng, cfg, out, info):
